@@ -233,22 +233,30 @@ def noneToText : MdVal α → MdVal α
   | .none => .text ""
   | v => v
 
+/-- the stored form of an atomic value -/
+def scalarCell (c : Utf8) : MdVal α → Option (Cell α)
+  | .text s => some (strCell c s)
+  | .int i => some (.i i)
+  | .float a => some (.f a)
+  | .bool b => some (.b b)
+  | _ => none
+
 /-- `general_formatter(grp, header, md, compression)` -/
 def generalFmt (c : Utf8) (k : String) (col : List (MdVal α)) : Except Err (String × DSet α) :=
   let name := sanitize k
   if col.all MdVal.isText then
-    .ok (name, { kind := .vlenStr, data := .d1 (col.map (fun v => match v with | .text s => strCell c s | _ => .s c.empty)) })
+    .ok (name, { kind := .vlenStr, data := .d1 (col.filterMap (scalarCell c)) })
   else if col.all MdVal.isList then listFmt c k col
   else
     let col' := col.map noneToText
     if col'.all MdVal.isText then
-      .ok (name, { kind := .vlenStr, data := .d1 (col'.map (fun v => match v with | .text s => strCell c s | _ => .s c.empty)) })
+      .ok (name, { kind := .vlenStr, data := .d1 (col'.filterMap (scalarCell c)) })
     else if col'.all MdVal.isInt then
-      .ok (name, { kind := .i64, data := .d1 (col'.map (fun v => match v with | .int i => .i i | _ => .i 0)) })
+      .ok (name, { kind := .i64, data := .d1 (col'.filterMap (scalarCell c)) })
     else if col'.all MdVal.isFloat then
-      .ok (name, { kind := .f64, data := .d1 (col'.filterMap (fun v => match v with | .float a => some (.f a) | _ => none)) })
+      .ok (name, { kind := .f64, data := .d1 (col'.filterMap (scalarCell c)) })
     else if col'.all MdVal.isBool then
-      .ok (name, { kind := .bool, data := .d1 (col'.map (fun v => match v with | .bool b => .b b | _ => .b false)) })
+      .ok (name, { kind := .bool, data := .d1 (col'.filterMap (scalarCell c)) })
     else
       -- "try our best": numpy picks a common dtype for the mixture; not modelled
       .ok (name, { kind := .other, data := .opaque })
@@ -318,6 +326,11 @@ def toH5 (c : Utf8) (dc : DateC δ) (t : Src α) (genBy : String) (date : Option
 
 /-! ### a reader written from biom-2.1.rst only -/
 
+def okEq [BEq β] (e : Except Err β) (x : β) : Bool :=
+  match e with
+  | .ok y => y == x
+  | .error _ => false
+
 def reqE (o : Option β) : Except Err β :=
   match o with
   | some x => .ok x
@@ -371,7 +384,7 @@ def readView (major minor : Nat) (g : Option (MatGrp α)) : Except Err (CS α) :
   pure { nMajor := major, nMinor := minor, indptr := indptr, indices := indices, data := data }
 
 /-- decode one view: the offsets must describe `major` vectors over `nnz` entries -/
-def specView (major minor nnz : Nat) (g : Option (MatGrp α)) : Except Err (List (List α)) := do
+def specView [Zero α] (major minor nnz : Nat) (g : Option (MatGrp α)) : Except Err (List (List α)) := do
   let cs ← readView major minor g
   if cs.wfb && cs.data.length == nnz then .ok cs.toDense else .error .value
 
@@ -448,18 +461,18 @@ def axGroupsOK (g : Option (AxGrp α)) : Bool :=
 /-- `ids`: a text dataset (also when empty) with one entry per ID, in axis order -/
 def idsOK [DecidableEq α] (c : Utf8) (ids : List Id) (g : Option (AxGrp α)) : Bool :=
   match g with
-  | some g => specIds c g.ids == .ok ids
+  | some g => okEq (specIds c g.ids) ids
   | none => false
 
 /-- a stored scalar / row stands for a metadata value -/
 def represents [DecidableEq α] (c : Utf8) : MdVal α → Row α → Bool
-  | .text s, .scalar (.s x) => c.dec x == .ok s
+  | .text s, .scalar (.s x) => okEq (c.dec x) s
   | .int i, .scalar (.i j) => i == j
   | .float a, .scalar (.f b) => a == b
   | .bool a, .scalar (.b b) => a == b
   | .list l, .vec cells =>
       cells.all (fun x => match x with | .s _ => true | _ => false) &&
-      (cells.filter (fun x => x != .s c.empty)).mapM (cellStr c) == .ok l
+      okEq ((cells.filter (fun x => x != .s c.empty)).mapM (cellStr c)) l
   | .none, .scalar (.s x) => x == c.empty
   | .none, .vec cells => cells.all (fun x => x == .s c.empty)
   | _, _ => false
